@@ -238,9 +238,16 @@ def build(ctx):
                [sum(V[i][k] * D[k][j] for k in range(3)) == (1 if i == j else 0) for i in range(3) for j in range(3)]
     captured = {}
 
+    class _SlabReached(BaseException):
+        """Raised by the contract standing in for Crystal.slab: the run is stopped at the call (wherever it is made -- in the query itself or in a helper it calls)
+        and the bounds it was given are what the obligations are about."""
+
+        def __init__(self, bounds):
+            self.bounds = bounds
+
     def slab_result(I2, self_, bounds=None, **kw):
         captured["bounds"] = bounds
-        return {}
+        raise _SlabReached(bounds)
     contracts = {CR + ".Crystal.slab": Contract(result=lambda I2, self_, bounds=None: slab_result(I2, self_, bounds))}
 
     class _Tree:
@@ -277,11 +284,11 @@ def build(ctx):
         for st in f_air.node.body:
             if isinstance(st, ast.Expr) and isinstance(st.value, ast.Constant):
                 continue
-            if "self.slab(" in ast.unparse(st):
-                call = [c for c in ast.walk(st) if isinstance(c, ast.Call) and ast.unparse(c.func) == "self.slab"][0]
-                bounds = I.eval(call.keywords[0].value if call.keywords else call.args[0], fr)
+            try:
+                I.exec_stmt(st, fr)
+            except _SlabReached as reached_:
+                bounds = reached_.bounds
                 break
-            I.exec_stmt(st, fr)
             if orig is None:
                 # find, BY MEANING (not by name), the local holding the fractional origin o.V and the one holding the extent r|a*_i|;
                 # abstract them so that the statements that follow (floor/ceil, integer conversion) are executed on E, F
@@ -353,11 +360,11 @@ def build(ctx):
             for st in stmts:
                 if isinstance(st, ast.Expr) and isinstance(st.value, ast.Constant):
                     continue
-                if "self.slab(" in ast.unparse(st):
-                    call = [c_ for c_ in ast.walk(st) if isinstance(c_, ast.Call) and ast.unparse(c_.func) == "self.slab"][0]
-                    bounds = I.eval(call.keywords[0].value if call.keywords else call.args[0], fr)
+                try:
+                    I.exec_stmt(st, fr)
+                except _SlabReached as reached_:
+                    bounds = reached_.bounds
                     return True
-                I.exec_stmt(st, fr)
                 if found_E is None:
                     for name_, val_ in list(fr.env.items()):
                         if name_ in ("self", "radius") or name_ in env0 or not isinstance(val_, NDArr) or val_.shape != (3,):
